@@ -117,6 +117,14 @@ def parse_strace(log_path, root, ack_path, names):
     exit_st = None
     inj = []
     pertid, cur_pid = {}, [""]
+    owner, stale = {}, {}
+
+    def reopen(fd):
+        # strace logs calls of different threads in the order it handles their exit stops: the close(N) of one thread
+        # may be logged after the open of another thread that already got N again. Close N first, drop the late close.
+        if tracked.get(fd) in ("tmp", "excl"):
+            ev.append({"ev": "sys", "sc": "close", "fd": fd, "ret": "ok"})
+            stale[fd] = stale.get(fd, 0) + 1
 
     def name_of(path):
         if path in names:
@@ -168,14 +176,18 @@ def parse_strace(log_path, root, ack_path, names):
                 return
             if path == root and "O_TMPFILE" in flags:
                 if rk == "ok":
+                    reopen(rv)
                     tracked[rv] = "tmp"
+                    owner[rv] = cur_pid[0]
                 ev.append({"ev": "sys", "sc": "opentmp", "fd": rv if rv is not None else 0, "ret": "ok" if rk == "ok" else ("unknown" if rk == "unknown" else "err"),
                            "batch": "O_DSYNC" not in flags})
                 return
             nm = name_of(path)
             if nm and "O_CREAT" in flags:
                 if rk == "ok":
+                    reopen(rv)
                     tracked[rv] = "excl"
+                    owner[rv] = cur_pid[0]
                 ev.append({"ev": "sys", "sc": "openexcl", "fd": rv if rv is not None else 0, "name": nm, "ret": rk})
             return
         if call in ("write", "writev", "pwrite64"):
@@ -252,6 +264,9 @@ def parse_strace(log_path, root, ack_path, names):
             if not m:
                 return
             fd = int(m.group(1))
+            if call == "close" and stale.get(fd, 0) > 0 and owner.get(fd) != cur_pid[0]:
+                stale[fd] -= 1          # the close of the previous use of this number, logged late (see reopen)
+                return
             if tracked.get(fd) in ("tmp", "excl"):
                 ev.append({"ev": "sys", "sc": "close" if call == "close" else "fdatasync", "fd": fd,
                            "ret": "ok" if rk == "ok" else ("unknown" if rk == "unknown" else "err")})
